@@ -87,22 +87,18 @@ def gen_model(rng, order=None, with_unk=None, pruned=None, size=None):
             for g in cand:
                 if len(grams[k]) > 1 and rng.random() < rate:
                     grams[k].discard(g)
-    # values
-    lines = ["", "\\data\\"]
-    for k in range(1, order + 1):
-        lines.append("ngram %d=%d" % (k, len(grams[k])))
-    lines.append("")
+    # values: entries[k] = [(gram, line)] in file order
     uni = sorted(grams[1])
     rng.shuffle(uni)
     if with_unk and rng.random() < 0.7:      # <unk> usually first, as lmplz writes it
         uni.remove((unk_tok,))
         uni.insert(0, (unk_tok,))
-    vals = {}
+    entries = {}
     for k in range(1, order + 1):
-        lines.append("\\%d-grams:" % k)
         gl = uni if k == 1 else sorted(grams[k])
         if k > 1 and rng.random() < 0.5:
             rng.shuffle(gl)
+        entries[k] = []
         for g in gl:
             p = -rng.choice([0.0, 0.1, 0.30103, 1.0, 2.5]) if rng.random() < 0.15 else -rng.random() * 6
             if g == ("<s>",):
@@ -121,28 +117,81 @@ def gen_model(rng, order=None, with_unk=None, pruned=None, size=None):
                     bs = fmt_float(rng, rng.random() * 0.5)
                 else:
                     bs = fmt_float(rng, -rng.random() * 3)
-            sep = "\t"
-            line = ps + sep + " ".join(g) + ((sep + bs) if bs is not None else "")
-            lines.append(line)
-            vals[g] = (ps, bs)
+            entries[k].append((g, ps + "\t" + " ".join(g) + (("\t" + bs) if bs is not None else "")))
+    m = render(order, entries, unk_tok)
+    m.update({"pruned": pruned, "size": size})
+    return m
+
+
+def render(order, entries, unk_tok):
+    """ARPA text + the facts the layout model needs, from entries[k] = [(gram, line)] (k = 1..order)."""
+    entries = {int(k): [(tuple(g), l) for g, l in v] for k, v in entries.items()}
+    lines = ["", "\\data\\"]
+    for k in range(1, order + 1):
+        lines.append("ngram %d=%d" % (k, len(entries[k])))
+    lines.append("")
+    for k in range(1, order + 1):
+        lines.append("\\%d-grams:" % k)
+        lines += [l for _, l in entries[k]]
         lines.append("")
     lines.append("\\end\\")
     text = ("\n".join(lines) + "\n").encode("utf-8")
+    grams = [set()] + [set(g for g, _ in entries[k]) for k in range(1, order + 1)]
     # expected trie counts: suffix closure (blank insertion), <unk> always counted
     closed = [set(gs) for gs in grams]
     for k in range(order, 2, -1):
         for g in closed[k]:
             closed[k - 1].add(g[1:])
-    saw_unk = with_unk
+    saw_unk = any(g[0] in ("<unk>", "<UNK>") for g in grams[1])
     fixed = [len(grams[1]) + (0 if saw_unk else 1)] + [len(closed[k]) for k in range(2, order + 1)]
     needs_blanks = any(len(closed[k]) != len(grams[k]) for k in range(2, order + 1))
-    vocab_words = [g[0] for g in uni if g[0] not in ("<unk>", "<UNK>")]
+    vocab_words = [g[0] for g, _ in entries[1] if g[0] not in ("<unk>", "<UNK>")]
     return {
         "text": text, "order": order, "counts": [len(grams[k]) for k in range(1, order + 1)],
-        "fixed_counts": fixed, "saw_unk": saw_unk, "needs_blanks": needs_blanks, "pruned": pruned,
+        "fixed_counts": fixed, "saw_unk": saw_unk, "needs_blanks": needs_blanks,
         "vocab_words": vocab_words,        # in ARPA order, without <unk>
-        "size": size, "unk_tok": unk_tok,
+        "unk_tok": unk_tok, "entries": {k: [(list(g), l) for g, l in v] for k, v in entries.items()},
     }
+
+
+def removable(entries, order, k, removed):
+    """May the k-grams `removed` be deleted keeping a loadable ARPA (prefix closure, specials, vocabulary)?"""
+    rem = set(tuple(g) for g, _ in removed)
+    if k < order:
+        if any(tuple(g[:-1]) in rem for g, _ in entries[k + 1]):
+            return False
+    if k == 1:
+        if any(g[0] in ("<s>", "</s>", "<unk>", "<UNK>") for g in rem):
+            return False
+        used = set(w for kk in range(2, order + 1) for g, _ in entries[kk] for w in g)
+        if any(g[0] in used for g in rem):
+            return False
+    return len(entries[k]) - len(removed) >= 1
+
+
+def shrink(model, still_fails, max_tests=60):
+    """Greedy chunked removal of n-grams (highest order first) while `still_fails(model')`."""
+    order = model["order"]
+    entries = {int(k): list(v) for k, v in model["entries"].items()}
+    tests = 0
+    for k in range(order, 0, -1):
+        chunk = max(1, len(entries[k]) // 2)
+        while chunk >= 1 and tests < max_tests:
+            i = 0
+            while i < len(entries[k]) and tests < max_tests:
+                removed = entries[k][i:i + chunk]
+                if removed and removable(entries, order, k, removed):
+                    trial = dict(entries)
+                    trial[k] = entries[k][:i] + entries[k][i + chunk:]
+                    tests += 1
+                    if still_fails(render(order, trial, model["unk_tok"])):
+                        entries = trial
+                        continue
+                i += chunk
+            if chunk == 1:
+                break
+            chunk //= 2
+    return render(order, entries, model["unk_tok"]), tests
 
 
 def gen_queries(rng, model, n=None):
@@ -161,4 +210,4 @@ if __name__ == "__main__":
     r = random.Random(int(sys.argv[1]) if len(sys.argv) > 1 else 1)
     m = gen_model(r)
     sys.stdout.buffer.write(m["text"])
-    sys.stderr.write(repr({k: v for k, v in m.items() if k not in ("text", "vocab_words")}) + "\n")
+    sys.stderr.write(repr({k: v for k, v in m.items() if k not in ("text", "vocab_words", "entries")}) + "\n")
